@@ -103,6 +103,9 @@ pub fn is_disk(m: &M) -> bool {
 }
 
 fn gen_planar_base(rng: &mut Rng, tier: Tier) -> (String, M) {
+    // mostly jittered vertices; sometimes the exact lattice (corners with bit-equal angles and
+    // lengths: whatever breaks a tie must not depend on the pose)
+    let jit = if rng.chance(0.2) { 0.0 } else { 0.15 };
     let max_cells = match tier {
         Tier::Quick => *rng.pick(&[2usize, 8, 30, 100, 200]),
         Tier::Thorough => *rng.pick(&[2usize, 8, 30, 100, 400, 1000]),
@@ -139,7 +142,7 @@ fn gen_planar_base(rng: &mut Rng, tier: Tier) -> (String, M) {
                 let long = rng.chance(if tier == Tier::Quick { 0.004 } else { 0.01 });
                 let n = if long { 515 + rng.below(400) } else { 1 + rng.below(max_cells.min(200)) };
                 let cell = rng.log_uniform(0.1, 3.0);
-                ("strip".into(), grid_diag(rng, n, 1, cell, 0.15, &|_, _| true, rng_bool(n)))
+                ("strip".into(), grid_diag(rng, n, 1, cell, jit, &|_, _| true, rng_bool(n)))
             }
             2 => {
                 let side = ((max_cells as f64).sqrt() as usize).max(1);
@@ -147,7 +150,7 @@ fn gen_planar_base(rng: &mut Rng, tier: Tier) -> (String, M) {
                 let ny = 1 + rng.below(side + 1);
                 let cell = rng.log_uniform(0.1, 3.0);
                 let rd = rng.chance(0.5);
-                ("rectangle".into(), grid_diag(rng, nx, ny, cell, 0.15, &|_, _| true, rd))
+                ("rectangle".into(), grid_diag(rng, nx, ny, cell, jit, &|_, _| true, rd))
             }
             _ => {
                 // non-convex outline grown cell by cell (L, U, comb shapes come out of the growth)
@@ -158,7 +161,7 @@ fn gen_planar_base(rng: &mut Rng, tier: Tier) -> (String, M) {
                 let cells = disk_cells(rng, nx, ny, target);
                 let cell = rng.log_uniform(0.1, 3.0);
                 let rd = rng.chance(0.5);
-                ("grown-outline".into(), grid_diag(rng, nx, ny, cell, 0.15, &|i, j| cells.contains(&(i, j)), rd).compact())
+                ("grown-outline".into(), grid_diag(rng, nx, ny, cell, jit, &|i, j| cells.contains(&(i, j)), rd).compact())
             }
         };
         if is_disk(&m) && consistent_planar(&m) {
